@@ -1,7 +1,34 @@
-(* Props/C08.v — property theorems only; proofs live in Proofs/C08*.v. *)
+(* Props/C08.v — property theorems only; proofs live in Proofs/C08*.v.
+
+   C08: ClassAds survive the wire; the decoder's literal shortcuts agree with the full parser;
+   the three receivers consume the same bytes. *)
 From Coq Require Import List NArith ZArith Bool.
 From Cedar Require Import Lib.Bytes Model.Literal Proofs.C08.
 Import ListNotations.
-Theorem C08_placeholder : decode_old_string [] = Some [].
-Proof. exact decode_old_nil. Qed.
-Print Assumptions C08_placeholder.
+
+(* For EVERY value text (any bytes), whatever strconv says about the range of a real:
+   if the literal fast path of the decoder (tryInsertLiteral) stores a literal, the
+   ClassAd lexer/grammar reads that same text as that same literal (boolean, integer,
+   real = same sign and same text handed to ParseFloat, string = same bytes).
+   lex_literal is the specification of the classad v0.4.0 parser on single literals;
+   the correspondence run compares it with the real parser on every text of length <= 4
+   over the literal alphabet and on directed texts. *)
+Theorem C08_shortcut_sound : forall (ovf : bool) (v : bytes) (l : lit),
+  try_literal ovf v = Some l -> lex_literal v = Some l.
+Proof. exact shortcut_sound. Qed.
+Print Assumptions C08_shortcut_sound.
+
+(* the shortcut is not vacuous, and the texts that used to be mis-read are left to the parser *)
+Example C08_shortcut_examples :
+  try_literal false [x20; x2d; x34; x32; x20] = Some (LInt (-42)) /\
+  try_literal false [x54; x72; x55; x65] = Some (LBool true) /\
+  try_literal false [x22; x61; x20; x62; x22] = Some (LStr [x61; x20; x62]) /\
+  try_literal false [x31; x2e; x35; x65; x33] = Some (LReal false [x31; x2e; x35; x65; x33]) /\
+  (* "a" + "b"   007   1.   0x1.8p1   "\xff" *)
+  try_literal false [x22; x61; x22; x20; x2b; x20; x22; x62; x22] = None /\
+  try_literal false [x30; x30; x37] = None /\
+  try_literal false [x31; x2e] = None /\
+  try_literal false [x30; x78; x31; x2e; x38; x70; x31] = None /\
+  try_literal false [x22; xff; x22] = None /\
+  lex_literal [x22; x61; x22; x20; x22; x62; x22] = Some (LStr [x61; x62]).
+Proof. vm_compute. repeat split; reflexivity. Qed.
